@@ -1,7 +1,17 @@
+/-
+  C09 for NPD and its segment classes.  The total-length check of `NPD.unpack` is exact (`NPD_accepts_iff`);
+  the segment decoders do NOT check the length a segment header declares (outside C09's list, DESIGN §12.4,
+  notes/fti.md §4 F1), so what is proved about a segment is the exact closed form of what the code does with
+  ANY declared length (`NPDSegment_unpack_payload`) and, as a corollary, that a declared length lying inside the
+  buffer gives a payload of exactly the declared length (`NPDSegment_exact`).
+  `segDeclared`, `segLen` (the declared length clamped into [8, len] — the value the `payload` setter leaves in
+  `segmentlen`), `segAdvance`, `segPayload`, `TypedHdrOk`, `SegOk`, `SegWalk` are defined in Acra.Lemmas.NPDWalk.
+-/
 import Acra.Model.NPD
 import Acra.Lemmas.Bits
+import Acra.Lemmas.NPDWalk
 namespace Acra.Props.C09
-open Acra.Py Acra.Model.NPD Acra.Gen.NPD Acra.Lemmas.Bits
+open Acra.Py Acra.Model.NPD Acra.Gen.NPD Acra.Lemmas.Bits Acra.Lemmas.NPD Acra.Lemmas.Walk
 
 /-- the packet length the NPD header declares, in 32-bit words: big-endian 16 bits at bytes 2..3 -/
 def declaredWords (buf : Bytes) : Nat := beNat ((buf.drop 2).take 2)
@@ -24,8 +34,9 @@ def segmentsOk (buf : Bytes) : Bool :=
     ((buf.drop (declaredHdrlen buf * 4)).length + 1) 0).isOk
 
 /-- NPD accepts a buffer exactly when it holds the 20-byte header, the declared total length (in 32-bit
-    words) equals the real length, and every segment (typed) header in the segment area is complete -/
-theorem NPD_accepts_iff (t : State) (buf : Bytes) :
+    words) equals the real length, and the model's own segment loop succeeds (see `NPD_accepts_iff` for the
+    closed form of the third conjunct) -/
+theorem NPD_accepts_iff_loop (t : State) (buf : Bytes) :
     (unpack t buf).2 = .ok () ↔ 20 ≤ buf.length ∧ declaredWords buf * 4 = buf.length ∧ segmentsOk buf = true := by
   by_cases h20 : 20 ≤ buf.length
   · obtain ⟨cc, fl, sq, ds, mc, ts, hh⟩ := NPD_hdr buf h20
@@ -39,6 +50,29 @@ theorem NPD_accepts_iff (t : State) (buf : Bytes) :
       have : ¬ (0 + (1 + (1 + (2 + (1 + (1 + (2 + (4 + (4 + (4 + 0))))))))) ≤ buf.length) := by omega
       simp [this]
     simp [unpack, this, h20]
+
+/-- the segment loop is the walk: `SegWalk k rem` holds when `rem` is empty, or the segment at its front is
+    acceptable (8-byte header complete, typed header of class `k` complete inside the payload actually taken)
+    and the walk continues after `segAdvance rem` bytes — the REWRITTEN length `segLen rem` rounded up to four -/
+theorem SegWalk_iff (k : Kind) (rem : Bytes) :
+    SegWalk k rem ↔ rem = [] ∨ (SegOk k rem ∧ SegWalk k (rem.drop (segAdvance rem))) := by
+  by_cases h : rem = []
+  · subst h
+    exact ⟨fun _ => Or.inl rfl, fun _ => .done⟩
+  · rw [SegWalk, walk_cons_iff _ _ _ h]
+    simp [h]
+
+theorem segmentsOk_iff_walk (buf : Bytes) :
+    segmentsOk buf = true ↔ SegWalk (kindOf (declaredType buf)) (buf.drop (declaredHdrlen buf * 4)) :=
+  decSeg_walk _ _
+
+/-- NPD accepts a buffer exactly when it holds the 20-byte header, the declared total length (in 32-bit
+    words) equals the real length, and every segment met while walking the segment area with the rewritten
+    lengths has a complete header (and typed header).  The walk is a predicate over the bytes (`SegWalk_iff`). -/
+theorem NPD_accepts_iff (t : State) (buf : Bytes) :
+    (unpack t buf).2 = .ok () ↔ 20 ≤ buf.length ∧ declaredWords buf * 4 = buf.length ∧
+      SegWalk (kindOf (declaredType buf)) (buf.drop (declaredHdrlen buf * 4)) := by
+  rw [NPD_accepts_iff_loop, segmentsOk_iff_walk]
 
 /-- the declared-total-length check by itself: an accepted buffer's length field (words) times four is its length -/
 theorem NPD_accepted_length (t : State) (buf : Bytes) (h : (unpack t buf).2 = .ok ()) :
@@ -63,49 +97,107 @@ theorem NPD_reject_kinds (t : State) (buf : Bytes) :
 /-- the length a segment header declares: big-endian 16 bits at bytes 4..5 -/
 def declaredSegLen (buf : Bytes) : Nat := beNat ((buf.drop 4).take 2)
 
-theorem SEG_hdr (buf : Bytes) (h : 8 ≤ buf.length) :
-    ∃ td ec fl, structUnpackFrom NPD_SEGMENT_HDR_FORMAT buf 0 = .ok [td, declaredSegLen buf, ec, fl] := by
-  simp only [structUnpackFrom, NPD_SEGMENT_HDR_FORMAT, Fmt.size, codesSize, Code.size, unpackCodes, decInt, List.drop_zero,
-    declaredSegLen]
-  have : 0 + (4 + (2 + (1 + (1 + 0)))) ≤ buf.length := by omega
-  simp only [this, if_true]
-  exact ⟨_, _, _, rfl⟩
+theorem declaredSegLen_eq (buf : Bytes) : declaredSegLen buf = segDeclared buf := rfl
 
 /-- a segment of a plain class (NPDSegment, PCMPacketizer, A429Segment) is accepted exactly when its
     8-byte header is complete -/
 theorem NPDSegment_ok_iff (t : Seg) (buf : Bytes) :
     (∃ r, (Seg.unpackBase t buf).2 = .ok r) ↔ 8 ≤ buf.length := by
   by_cases h8 : 8 ≤ buf.length
-  · obtain ⟨td, ec, fl, hh⟩ := SEG_hdr buf h8
-    simp [Seg.unpackBase, hh, h8]
-  · have : structUnpackFrom NPD_SEGMENT_HDR_FORMAT buf 0 = .error .struct := by
-      simp only [structUnpackFrom, NPD_SEGMENT_HDR_FORMAT, Fmt.size, codesSize, Code.size]
-      have : ¬ (0 + (4 + (2 + (1 + (1 + 0)))) ≤ buf.length) := by omega
-      simp [this]
-    simp [Seg.unpackBase, this, h8]
+  · rw [unpackBase_closed t buf h8]; simp [h8]
+  · rw [unpackBase_short t buf h8]; simp [h8]
 
-/- Full statement (FALSE of the faithful model, hence of the code):
-     (Seg.unpackBase t buf).2 = .ok r → (Seg.unpackBase t buf).1.payload.length = declaredSegLen buf - 8
-   The declared segment length is never checked: one that points past the end of the buffer is accepted
-   and the payload is what is there; one below 8 is taken as 8; and the `payload` setter then overwrites
-   `segmentlen` with the length found, so the object no longer shows what was declared. -/
-theorem NPDSegment_exact_partial (t : Seg) (buf r : Bytes) (h : (Seg.unpackBase t buf).2 = .ok r) :
+/-- a segment of ANY class `k` is accepted exactly when its 8-byte header is complete and the payload taken
+    holds the typed header of the class (ACQ and MIL-STD-1553: 4 bytes; RS-232: the status word and the sync
+    bytes it counts) -/
+theorem Segment_ok_iff (k : Kind) (buf : Bytes) :
+    (∃ g r, Seg.unpack (Seg.fresh k) buf = (g, .ok r)) ↔
+      8 ≤ buf.length ∧ TypedHdrOk k (slice buf 8 (declaredSegLen buf)) := by
+  rw [Seg_unpack_ok_iff, SegOk, segPayload_eq]
+  rfl
+
+/-- `NPDSegment.unpack`, exactly, for every buffer that holds the 8-byte header and EVERY declared length `d`:
+    with `n = max 8 (min d len(buffer))`,
+    the payload is `buffer[8:n]` (= `buffer[8:d]` in Python), so it has `n − 8` bytes;
+    `segmentlen` is REWRITTEN to `n` (the declared value is lost unless `8 ≤ d ≤ len(buffer)`);
+    the bytes consumed are `n` rounded up to four, i.e. the rest returned is `buffer[roundUp4 n:]`;
+    the other header fields are what the layout says. -/
+theorem NPDSegment_unpack_payload (t : Seg) (buf : Bytes) (h8 : 8 ≤ buf.length) :
+    (Seg.unpackBase t buf).1.payload = slice buf 8 (max 8 (min (declaredSegLen buf) buf.length)) ∧
     (Seg.unpackBase t buf).1.payload = slice buf 8 (declaredSegLen buf) ∧
-    (Seg.unpackBase t buf).1.payload.length = min (declaredSegLen buf) buf.length - 8 ∧
-    (Seg.unpackBase t buf).1.segmentlen = (Seg.unpackBase t buf).1.payload.length + 8 ∧
-    (8 ≤ declaredSegLen buf → declaredSegLen buf ≤ buf.length →
-      (Seg.unpackBase t buf).1.segmentlen = declaredSegLen buf) := by
-  have h8 := (NPDSegment_ok_iff t buf).1 ⟨r, h⟩
-  obtain ⟨td, ec, fl, hh⟩ := SEG_hdr buf h8
-  simp only [Seg.unpackBase, hh, Seg.setPayload, NPD_SEGMENT_HDR_LEN, slice_length]
-  refine ⟨trivial, trivial, trivial, ?_⟩
-  intro h1 h2
+    (Seg.unpackBase t buf).1.payload.length = max 8 (min (declaredSegLen buf) buf.length) - 8 ∧
+    (Seg.unpackBase t buf).1.segmentlen = max 8 (min (declaredSegLen buf) buf.length) ∧
+    (Seg.unpackBase t buf).2 = .ok (buf.drop (roundUp4 (max 8 (min (declaredSegLen buf) buf.length)))) ∧
+    (Seg.unpackBase t buf).1.timedelta = beNat (buf.take 4) ∧
+    (Seg.unpackBase t buf).1.errorcode = beNat ((buf.drop 6).take 1) ∧
+    (Seg.unpackBase t buf).1.flags = beNat ((buf.drop 7).take 1) := by
+  rw [unpackBase_closed t buf h8]
+  refine ⟨rfl, segPayload_eq buf, ?_, rfl, rfl, rfl, rfl, rfl⟩
+  exact segPayload_length buf h8
+
+/-- the whole result as one equation (object and rest), for any prior state `t` -/
+theorem NPDSegment_unpack_closed (t : Seg) (buf : Bytes) (h8 : 8 ≤ buf.length) :
+    Seg.unpackBase t buf = (baseDecoded t buf, .ok (buf.drop (segAdvance buf))) :=
+  unpackBase_closed t buf h8
+
+/-- corollary: a declared length within the buffer (and not below the header's) gives a payload of exactly
+    the declared length, keeps `segmentlen` as declared, and consumes the declared length rounded up to four -/
+theorem NPDSegment_exact (t : Seg) (buf : Bytes) (h1 : 8 ≤ declaredSegLen buf) (h2 : declaredSegLen buf ≤ buf.length) :
+    (Seg.unpackBase t buf).1.payload = slice buf 8 (declaredSegLen buf) ∧
+    (Seg.unpackBase t buf).1.payload.length = declaredSegLen buf - 8 ∧
+    (Seg.unpackBase t buf).1.segmentlen = declaredSegLen buf ∧
+    (Seg.unpackBase t buf).2 = .ok (buf.drop (roundUp4 (declaredSegLen buf))) := by
+  have h8 : 8 ≤ buf.length := by omega
+  obtain ⟨_, hp, hl, hs, hr, _⟩ := NPDSegment_unpack_payload t buf h8
+  have : max 8 (min (declaredSegLen buf) buf.length) = declaredSegLen buf := by omega
+  rw [this] at hl hs hr
+  exact ⟨hp, hl, hs, hr⟩
+
+/-- conversely: after decoding, `segmentlen` still shows the declared length exactly when the declared length
+    lies in `[8, len(buffer)]` -/
+theorem NPDSegment_exact_iff (t : Seg) (buf : Bytes) (h8 : 8 ≤ buf.length) :
+    (Seg.unpackBase t buf).1.segmentlen = declaredSegLen buf ↔
+      (8 ≤ declaredSegLen buf ∧ declaredSegLen buf ≤ buf.length) := by
+  rw [(NPDSegment_unpack_payload t buf h8).2.2.2.1]
   omega
 
-/-- witnesses of the gap: a segment declaring 100 bytes with none present, and one declaring 0 bytes, are accepted -/
+/-- the gap between `NPDSegment_unpack_payload` and "payload = declared − 8": a segment declaring 100 bytes with
+    none present, and one declaring 0 bytes, are accepted; `segmentlen` reads 8 afterwards -/
 example : (Seg.unpackBase (Seg.fresh .base) [0, 0, 0, 1, 0, 100, 0, 0]).2 = .ok [] ∧
     (Seg.unpackBase (Seg.fresh .base) [0, 0, 0, 1, 0, 100, 0, 0]).1.segmentlen = 8 := ⟨rfl, rfl⟩
 example : (Seg.unpackBase (Seg.fresh .base) [0, 0, 0, 1, 0, 0, 0, 0, 9, 9, 9, 9]).2 = .ok [9, 9, 9, 9] ∧
     (Seg.unpackBase (Seg.fresh .base) [0, 0, 0, 1, 0, 0, 0, 0, 9, 9, 9, 9]).1.segmentlen = 8 := ⟨rfl, rfl⟩
+
+/-- non-vacuity of `NPDSegment_exact`: 11 declared, 12 present (one pad byte) -/
+example : 8 ≤ declaredSegLen [0, 0, 0, 1, 0, 11, 0, 0, 7, 8, 9, 255] ∧
+    declaredSegLen [0, 0, 0, 1, 0, 11, 0, 0, 7, 8, 9, 255] ≤ ([0, 0, 0, 1, 0, 11, 0, 0, 7, 8, 9, 255] : Bytes).length := by
+  decide
+
+/-- the walk on the F1 witness (notes/fti.md): one segment declaring 100 bytes, 8 present — accepted, because the
+    walk uses the rewritten length 8 -/
+example : SegWalk .base [0, 0, 0, 1, 0, 100, 0, 0] :=
+  .step (by decide) (by decide) .done
+
+/-- two segments, the first declaring 0 bytes (taken as 8) -/
+example : SegWalk .base [0, 0, 0, 1, 0, 0, 0, 0, 0, 0, 0, 2, 0, 8, 0, 0] :=
+  .step (by decide) (by decide) (.step (by decide) (by decide) .done)
+
+/-- a trailing incomplete segment header is refused, and so is an RS-232 segment whose status word counts more
+    sync bytes than the payload holds -/
+example : ¬ SegWalk .base [0, 0, 0, 1, 0, 8, 0, 0, 1, 2, 3, 4] := by
+  intro h
+  rw [SegWalk_iff] at h
+  rcases h with h | ⟨_, h⟩
+  · cases h
+  · rw [SegWalk_iff] at h
+    rcases h with h | ⟨h, _⟩
+    · revert h; decide
+    · revert h; decide
+example : ¬ SegWalk .rs232 [0, 0, 0, 1, 0, 11, 0, 0, 0, 3, 0xAA, 0xFF] := by
+  intro h
+  rw [SegWalk_iff] at h
+  rcases h with h | ⟨h, _⟩
+  · cases h
+  · revert h; decide
 
 end Acra.Props.C09
